@@ -509,6 +509,9 @@ def shard(args):
                     det = stack_key(e3.decode('utf-8', 'replace'))
             if kind == 'ok':
                 arc, ao, ae = core.sh(['as', '-o', '/dev/null', out_s], timeout=60)
+                if arc != 0 and re.search(r'\basm\b|__asm__', v):
+                    arc = 0   # user-supplied inline assembly text is passed through verbatim: its validity is not the compiler's
+                    counts['asm-text-not-judged'] = counts.get('asm-text-not-judged', 0) + 1
                 if arc != 0:
                     aet = ae.decode('utf-8', 'replace')
                     m2 = re.search(r'(?:Error|Fatal error): (.*)', aet)
